@@ -279,7 +279,7 @@ func (r *Runner) Step(st []any, noLS bool) (res string, ack bool) {
 	op := argStr(st, 0, "")
 	ctx := r.ctx
 	isLS := strings.HasPrefix(op, "Ls") || strings.HasPrefix(op, "Ck") || op == "Fault" || op == "ClearFaults" || op == "SnapRetention" ||
-		op == "L0Retention" || op == "RetByTXID" || op == "RestoreCheck" || op == "AuditNow" || op == "MetaLost" || op == "Snapshot" || op == "Compact" ||
+		op == "L0Retention" || op == "RetByTXID" || op == "AgeFile" || op == "L0RetentionAbs" || op == "SnapRetentionAbs" || op == "RestoreCheck" || op == "AuditNow" || op == "MetaLost" || op == "Snapshot" || op == "Compact" ||
 		strings.HasPrefix(op, "Ret") || op == "ReplaceDb" || op == "SaveCopy" || op == "SaveAll" || op == "RestoreAll"
 	if noLS && isLS && op != "ReplaceDb" && op != "SaveCopy" && op != "SaveAll" && op != "RestoreAll" {
 		return "skip", false
@@ -879,7 +879,7 @@ func RunCase(c Case, baseDir string, hooks func(r *Runner, ls *litestream.DB)) (
 		ev.N = argInt(st, 1, 0)
 		ev.Res, ev.Ack = r.Step(st, false)
 		r.observe(&ev)
-		isRepl := strings.HasPrefix(ev.Op, "Ls") || ev.Op == "Compact" || ev.Op == "Snapshot" || strings.HasSuffix(ev.Op, "Retention") || ev.Op == "RetByTXID"
+		isRepl := strings.HasPrefix(ev.Op, "Ls") || ev.Op == "Compact" || ev.Op == "Snapshot" || strings.HasSuffix(ev.Op, "Retention") || strings.HasSuffix(ev.Op, "RetentionAbs") || ev.Op == "RetByTXID"
 		if ev.Ack || ev.Op == "RestoreCheck" || (c.Cfg.RestoreEach && isRepl && ev.Res != "skip" && len(ev.Remote) > 0) {
 			ev.Rest = r.Restore(0, time.Time{})
 		}
